@@ -84,6 +84,30 @@ Theorem C19_result_independent_of_the_other_goroutines_partial :
 Proof. exact independent_of_the_others. Qed.
 Print Assumptions C19_result_independent_of_the_other_goroutines_partial.
 
+(* "The result it returns when run alone", on the machine of histories (a process keeps a state between calls; `result_after h a` = the result
+   of the call `a` in a process where the calls `h` were made before, from a fresh process): if results are functions of the arguments alone,
+   every two histories agree on every call - in particular any process agrees with the fresh one. The harness checks the hypothesis at run
+   time by making the same calls alone in their own process and in another order in another process. *)
+Theorem C19_results_that_depend_on_arguments_only_are_the_same_in_every_history_partial :
+  forall (State Arg Res : Type) (call : State -> Arg -> State * Res) (fresh : State),
+    args_only State Arg Res call fresh ->
+    forall h1 h2 a, result_after State Arg Res call fresh h1 a = result_after State Arg Res call fresh h2 a.
+Proof. exact args_only_gives_history_independence. Qed.
+Print Assumptions C19_results_that_depend_on_arguments_only_are_the_same_in_every_history_partial.
+
+(* the comparison with the fresh process is a complete test of that hypothesis *)
+Theorem C19_same_as_alone_in_every_history_iff_arguments_only_partial :
+  forall (State Arg Res : Type) (call : State -> Arg -> State * Res) (fresh : State),
+    (forall h a, result_after State Arg Res call fresh h a = result_after State Arg Res call fresh [] a) <-> args_only State Arg Res call fresh.
+Proof. exact same_as_alone_iff_args_only. Qed.
+Print Assumptions C19_same_as_alone_in_every_history_iff_arguments_only_partial.
+
+(* a memo table keyed on part of the arguments (key but not row) is history-dependent: whichever call comes first decides the later results *)
+Theorem C19_memo_keyed_on_part_of_the_arguments_is_history_dependent :
+  exists (State Arg Res : Type) (call : State -> Arg -> State * Res) (fresh : State), ~ history_independent State Arg Res call fresh.
+Proof. exact memo_on_part_of_the_arguments_is_history_dependent. Qed.
+Print Assumptions C19_memo_keyed_on_part_of_the_arguments_is_history_dependent.
+
 (* The premise cannot be dropped: with a single write site (a memoising call over a shared cache cell) there are a schedule and a thread whose
    result differs from its solo run. *)
 Theorem C19_one_write_site_breaks_it :
@@ -125,6 +149,11 @@ Example C19_nonvacuous :
   Example2.acc (solo _ _ Example2.step 4 Example2.store (Example2.start 0)) = 15 /\
   Example2.acc (solo _ _ Example2.step 4 Example2.store (Example2.start 1)) = 3.
 Proof. split; [exact Example2.is_scanned | split; [reflexivity | exact Example2.concrete_run]]. Qed.
+
+(* non-vacuity of the history theorems: the memo machine returns 8 for (1,7) alone and 6 after (1,5) *)
+Example C19_memo_witness :
+  result_after Memo.State Memo.Arg nat Memo.call [] [] (1, 7) = 8 /\ result_after Memo.State Memo.Arg nat Memo.call [] [(1, 5)] (1, 7) = 6.
+Proof. exact Memo.history_dependent. Qed.
 
 (* non-vacuity of the refutation: the memoising call returns 1 after another call has run, 0 alone *)
 Example C19_cache_witness :
